@@ -292,7 +292,8 @@ def check(prog: Program, tier: str) -> Result:
     _r16_14(prog, res)
     _r16_15(prog, res)
     _r16_16(prog, res)
-    res.floors.update({"R16.1": 60, "R16.2": 25, "R16.3": 10, "R16.4": 2, "R16.5": 1, "R16.6": 3, "R16.7": 8, "R16.8": 5, "R16.9": 2, "R16.10": 4, "R16.11": 1, "R16.12": 1, "R16.13": 1, "R16.15": 2, "R16.16": 3})
+    _r16_17(prog, res)
+    res.floors.update({"R16.1": 60, "R16.2": 25, "R16.3": 10, "R16.4": 2, "R16.5": 1, "R16.6": 3, "R16.7": 8, "R16.8": 5, "R16.9": 2, "R16.10": 4, "R16.11": 1, "R16.12": 1, "R16.13": 1, "R16.15": 2, "R16.16": 3, "R16.17": 1})
     res.analysed.update({"ast_kinds": len(kinds)})
     return res
 
@@ -818,6 +819,47 @@ def _safe_callables(prog: Program, res: Result) -> None:
                f"starts from {norm(init[0])}" if init else "does not start from constants.SAFE_CALLABLES")
 
 
+# ------------------------------------------------------------------------------------------------ R16.17
+def _r16_17(prog: Program, res: Result) -> None:
+    """A statement that `cannot alter control flow` may still RAISE: the name lookup in `try: unicode / except NameError:`,
+    the subscript in `try: mapping[key] / except KeyError:` are there to raise - inside a try, the exception is the
+    control flow.  The side-effect analysis knows nothing of exceptions, so the deletion of pointless statements has to
+    leave the statements of a try body alone: every deletion is reached only when the container whose body is scanned
+    was tested not to be an ast.Try."""
+    from ..pathcond import PathAnalysis, plain
+    fn = prog.funcs.get(("fixes", "delete_pointless_statements"))
+    if fn is None:
+        raise AnalysisError("anchor fixes.delete_pointless_statements not found")
+    pa = PathAnalysis(prog, fn)
+    n = 0
+    for y in walk_own(fn.node):
+        if not (isinstance(y, ast.Yield) and isinstance(y.value, ast.Tuple) and len(y.value.elts) >= 2 and isinstance(y.value.elts[1], ast.Constant)
+                and y.value.elts[1].value is None):
+            continue
+        # the container: X in `for .. in enumerate(X.body)` / `for .. in X.body` around the yield
+        cont = None
+        a = parent(y)
+        while a is not None and a is not fn.node:
+            if isinstance(a, ast.For):
+                for x in ast.walk(a.iter):
+                    if isinstance(x, ast.Attribute) and x.attr == "body" and isinstance(x.value, ast.Name):
+                        cont = cont or x.value.id
+            a = parent(a)
+        if cont is None:
+            continue
+        n += 1
+        worlds = pa.worlds_at(y)
+        ok = bool(worlds) and all(any(f[0] == "lit" and not f[2] and plain(f[1]).startswith(f"isinstance({cont},") and "ast.Try" in plain(f[1]) for f in w.facts)
+                                  for w in worlds)
+        res.decide(ok, "R16.17", fn.loc(y), fn.fq, f"{short(y, 50)} # deletion of a pointless statement",
+                   f"never a statement of a try body (`{cont}` is tested not to be an ast.Try)" if ok else
+                   f"statements of a try body are deleted like any other: `try: unicode / except NameError: ..` loses the lookup that is there to raise, the handler "
+                   "can never run")
+    if n == 0:
+        res.undecided("R16.17", fn.loc(), fn.fq, "deletion of pointless statements", "no deletion site found")
+
+
+
 def _r16_16(prog: Program, res: Result) -> None:
     """Whose break is it?  A loop that is certainly entered is 'blocking' (nothing after it runs) only if nothing inside can leave
     it normally.  A `break` of THIS loop can stand at any depth of if / try / with / match - and in the ELSE clause of an inner
@@ -1135,6 +1177,8 @@ def _positive(test: ast.AST) -> bool:
 from ..selftest import Variant  # noqa: E402
 
 VARIANTS: List[Variant] = [
+    Variant("try-bodies-scanned-for-pointless-statements", "FIRE", "fixes", "        if isinstance(node, (ast.Try, getattr(ast, \"TryStar\", ast.Try))):\n            continue  # What a statement in a try raises is there to be caught: \"try: unicode\"\n\n", "", "R16.17"),
+    Variant("try-test-written-with-a-template", "SILENT", "fixes", "        if isinstance(node, (ast.Try, getattr(ast, \"TryStar\", ast.Try))):\n            continue  # What a statement in a try raises is there to be caught: \"try: unicode\"\n", "        if not isinstance(node, (ast.Try, getattr(ast, \"TryStar\", ast.Try))):\n            pass\n        else:\n            continue\n", "R16.17"),
     Variant("jump-search-enters-inner-loop-bodies", "FIRE", "core", "            blocks = [node.orelse]\n", "            blocks = [node.body, node.orelse]\n", "R16.16"),
     Variant("continue-of-a-for-loop-not-searched", "FIRE", "core", "        leaving = (ast.Break, ast.Continue) if isinstance(node, ast.For) else (ast.Break,)", "        leaving = (ast.Break,)", "R16.16"),
     Variant("jump-search-dropped", "FIRE", "core", "        if _has_jump_of_this_loop(node.body, leaving):\n            return False\n", "        pass\n", "R16.16"),
